@@ -1,6 +1,6 @@
 (** C15 — value collections are insertion-ordered maps; conversions agree with equality.
     Property theorems only; every proof is [exact <lemma>]. *)
-From TT Require Import Values.Values Values.ValuesProofs Values.ValueProofs.
+From TT Require Import Values.Values Values.ValuesProofs Values.ValueProofs Judge.C15Proofs.
 
 (** Every collection reachable by any sequence of insert / extend / collect / deserialize
     operations is the denotation of the history of the entries "inserted one by one":
@@ -58,6 +58,25 @@ Proof. exact as_i64_iff. Qed.
 Theorem C15_u64_view_iff_fits : forall z,
   as_type TU64 (VUInt z) = Some (CU64 z) <-> (0 <= z < 2 ^ 64)%Z.
 Proof. exact as_u64_iff. Qed.
+
+(** the judges of the correspondence run ([Judge/C15.v]) on the model's own output: the observations
+    the specification predicts from the history alone are the model's observations after every
+    operation, and the conversion clauses hold of the model's answers - an implementation that does
+    what the model does is judged [Agree] (or is outside the hypotheses) on every input *)
+Theorem C15_spec_observations_are_model_observations : forall probe ops h,
+  model_obs probe (denote h) ops = spec_obs probe h ops.
+Proof. exact model_obs_is_spec_obs. Qed.
+
+Theorem C15_judge_ops_ok_on_model : forall ops probe, judge_ops ops probe (model_obs probe [] ops) = Agree.
+Proof. exact judge_ops_ok_on_model. Qed.
+
+Theorem C15_judge_conv_ok_on_model : forall v x,
+  judge_conv v x (eq_vc v x) (eq_cv x v) (as_type (type_of x) v) = Agree \/
+  judge_conv v x (eq_vc v x) (eq_cv x v) (as_type (type_of x) v) = OutOfScope.
+Proof. exact judge_conv_ok_on_model. Qed.
+
+Theorem C15_judge_debug_ok_on_model : forall v r, judge_debug v r (as_debug_str v) (is_debug v r) = Agree.
+Proof. exact judge_debug_ok_on_model. Qed.
 
 (** Non-vacuity: a concrete history with a repeated name. *)
 Example C15_example :
